@@ -107,7 +107,11 @@ class Driver:
         return c
 
     def fresh(self, state):
-        return self.make(state["c"])
+        c = self.make(state["c"])
+        # as if earlier lookups had happened: counters are judged as deltas, and a method
+        # that resets or recomputes them must be visible from any starting point
+        c.hit_count, c.miss_count, c.soft_miss_count = 3, 2, 1
+        return c
 
     def arg(self, pairs, form, cfg):
         K, V = self.conc.K, self.conc.V
